@@ -109,8 +109,164 @@ def fixed_corpus(u):
     add('nocopy', Struct('NoCopy', [Field(1, ('string',), nocopy=True), Field(2, ('binary',), nocopy=True),
                                     Field(3, ('string',)), Field(4, ('binary',), 'optional'),
                                     Field(5, ('ptr', ('string',)), 'optional', nocopy=True)]))
+    spellings(u, add)
+    invalid_defs(u, add)
     add('nocopy', Struct('NoCopyNest', [Field(1, ('ptr', ('struct', 'NoCopy')), 'optional'), Field(2, ('list', ('ptr', ('struct', 'NoCopy'))))]))
     return groups
+
+
+def spellings(u, add):
+    """equivalent spellings of one schema (C12): every variant must resolve to the schema of its base"""
+    L = ('struct', 'Leaf')
+    PL = ('ptr', L)
+    base = [
+        (1, ('i32',), 'default'), (2, ('string',), 'required'), (3, ('i8',), 'optional'), (4, enum_t(), 'default'),
+        (5, ('list', ('i32',)), 'default'), (6, ('map', ('string',), ('list', PL)), 'optional'),
+        (7, PL, 'optional'), (8, ('binary',), 'default'), (9, ('set', ('i64',)), 'default'), (10, L, 'default'),
+        (11, ('double',), 'default'), (12, ('bool',), 'default'), (13, ('i16',), 'required'), (14, ('i64',), 'default'),
+        (15, ('map', enum_t(), ('set', ('string',))), 'default'),
+    ]
+
+    def mk(name, tagf, extra=None):
+        fs = [Field(fid, t, req, tag=tagf(fid, t, req)) for (fid, t, req) in base]
+        add('spell', Struct(name, fs + (extra or [])))
+
+    can = lambda fid, t, req: 'frugal:"%d,%s,%s"' % (fid, req, annot(t))
+    mk('SpBase', can)
+    # thrift carrier: field-name text is arbitrary; the annotation in fourth position
+    mk('SpThrift', lambda fid, t, req: 'thrift:"some_name%d,%d,%s,%s"' % (fid, fid, req, annot(t)))
+    mk('SpThriftEmptyName', lambda fid, t, req: 'thrift:",%d,%s,%s"' % (fid, req, annot(t)))
+    # both present: frugal wins, the thrift one says something else
+    mk('SpBoth', lambda fid, t, req: 'thrift:"x,%d,required" frugal:"%d,%s,%s"' % (fid + 100, fid, req, annot(t)))
+    mk('SpBothOrder', lambda fid, t, req: 'frugal:"%d,%s,%s" json:"f%d,omitempty" thrift:"x,%d"' % (fid, req, annot(t), fid, fid + 50))
+    # spaces around every element
+    def spaced(fid, t, req):
+        a = annot(t)
+        for ch in '<>:':
+            a = a.replace(ch, ' ' + ch + ' ')
+        return 'frugal:" %d ,  %s , %s  "' % (fid, req, a)
+    mk('SpSpaces', spaced)
+    mk('SpTabs', lambda fid, t, req: 'frugal:"%d,\t%s\t,%s"' % (fid, req, annot(t).replace('<', '<\t')))
+    # byte for i8; package-qualified names for structs and enums
+    def alt(fid, t, req):
+        a = annot(t).replace('i8', 'byte').replace('Leaf', 'main.Leaf').replace(ENUM_NAME, 'pkg.' + ENUM_NAME)
+        return 'frugal:"%d,%s,%s"' % (fid, req, a)
+    mk('SpAltNames', alt)
+    # leading zeros in the id
+    mk('SpZeros', lambda fid, t, req: 'frugal:"%03d,%s,%s"' % (fid, req, annot(t)))
+    # omitted requiredness / annotation where the Go type determines them
+    simple = [(1, ('i32',)), (2, ('string',)), (3, ('i8',)), (4, ('binary',)), (5, ('double',)), (6, ('bool',)), (7, ('i16',)),
+              (8, ('i64',)), (9, ('ptr', ('struct', 'Leaf'))), (10, ('struct', 'Leaf')), (11, ('map', ('string',), ('i32',)))]
+    add('spell', Struct('SpDetBase', [Field(fid, t, 'default') for fid, t in simple]))
+    add('spell', Struct('SpDetIdOnly', [Field(fid, t, 'default', tag='frugal:"%d"' % fid) for fid, t in simple]))
+    add('spell', Struct('SpDetNoAnnot', [Field(fid, t, 'default', tag='frugal:"%d,default"' % fid) for fid, t in simple]))
+    add('spell', Struct('SpDetThrift', [Field(fid, t, 'default', tag='thrift:"n,%d"' % fid) for fid, t in simple]))
+    add('spell', Struct('SpDetThriftReq', [Field(fid, t, 'required', tag='thrift:"n,%d,required"' % fid) for fid, t in simple]))
+    add('spell', Struct('SpDetReqBase', [Field(fid, t, 'required') for fid, t in simple]))
+    # a named int64 without naming it in the annotation is a plain i64, not an enum
+    add('spell', Struct('SpEnumAsI64', [Field(1, ('i64',), go_text=ENUM_NAME, model_text='(int64 %s)' % ENUM_NAME, tag='frugal:"1,default,i64"'),
+                                        Field(2, ('i64',), go_text=ENUM_NAME, model_text='(int64 %s)' % ENUM_NAME, tag='frugal:"2,default"'),
+                                        Field(3, enum_t())]))
+    # same Go type, different Thrift meaning
+    add('spell', Struct('SpSetList', [Field(1, ('list', ('i32',))), Field(2, ('set', ('i32',))),
+                                      Field(3, ('map', ('i32',), ('set', ('i32',)))), Field(4, ('map', ('i32',), ('list', ('i32',))))]))
+    # ignored fields: untagged, unexported, embedded
+    ign = [Field(0, ('i32',), name='Untagged', ignored=True),
+           Field(0, ('i32',), name='hidden', exported=False, ignored=True, tag='frugal:"40,default,i32"'),
+           Field(0, ('struct', 'Leaf'), name='Leaf', anonymous=True, ignored=True, tag='frugal:"41,default,Leaf"'),
+           Field(0, ('string',), name='JSONOnly', ignored=True, tag='json:"x"')]
+    mk('SpIgnored', can, extra=ign)
+
+
+def invalid_defs(u, add):
+    """definitions outside the supported language (C13): each must be rejected"""
+    n = [0]
+
+    def bad(fields, group='invalid'):
+        n[0] += 1
+        add(group, Struct('Bad%d' % n[0], fields, invalid=True))
+
+    def one(go_text, model_text, tag):
+        bad([Field(1, None, go_text=go_text, model_text=model_text, tag=tag), Field(2, ('i32',))])
+
+    # Go kinds Thrift cannot express, at field / element / key / value position
+    unsup = [('uint', 2), ('uint8', 3), ('uint16', 4), ('uint32', 5), ('uint64', 6), ('float32', 7), ('[4]int32', 8),
+             ('chan int', 9), ('func()', 10), ('interface{}', 11), ('complex128', 12), ('uintptr', 13)]
+    for gt, k in unsup:
+        mt = 'uint8' if gt == 'uint8' else '(unsup %d)' % k
+        one(gt, mt, 'frugal:"1,default"')
+        one(gt, mt, 'frugal:"1,default,i32"')
+        if gt not in ('uint8',):
+            one('[]' + gt, '(slice %s)' % mt, 'frugal:"1,default,list<i32>"')
+        one('map[string]' + gt, '(map string %s)' % mt, 'frugal:"1,default,map<string:i32>"')
+        if gt not in ('func()', '[4]int32') and not gt.startswith('chan'):
+            pass
+    for gt, k in [('uint32', 5), ('float32', 7), ('uintptr', 13)]:
+        one('map[%s]string' % gt, '(map (unsup %d) string)' % k, 'frugal:"1,default,map<i32:string>"')
+    # slice without list/set
+    one('[]int32', '(slice int32)', 'frugal:"1,default"')
+    one('[]int32', '(slice int32)', 'frugal:"1"')
+    one('[]int32', '(slice int32)', 'thrift:"x,1"')
+    one('[][]int32', '(slice (slice int32))', 'frugal:"1,default,list<>"')
+    one('map[string][]int32', '(map string (slice int32))', 'frugal:"1,default"')
+    # annotation contradicting the Go type
+    for gt, mt, an in [('int32', 'int32', 'i64'), ('int64', '(int64 -)', 'i32'), ('string', 'string', 'binary'), ('[]byte', '(slice uint8)', 'string'),
+                       ('map[string]int32', '(map string int32)', 'list<i32>'), ('[]int32', '(slice int32)', 'map<i32:i32>'),
+                       ('Leaf', '(struct %d Leaf)' % u.by_name['Leaf'].sid, 'LeafReq'), ('*Leaf', '(ptr (struct %d Leaf))' % u.by_name['Leaf'].sid, 'Leaff'),
+                       ('float64', 'float64', 'i64'), ('bool', 'bool', 'i8'), ('int8', 'int8', 'bool'), ('[]int32', '(slice int32)', 'list<i64>'),
+                       ('map[string]int32', '(map string int32)', 'map<i32:i32>'), ('map[string]int32', '(map string int32)', 'map<string:i64>'),
+                       ('int16', 'int16', 'i'), ('int16', 'int16', '16'), ('int8', 'int8', 'yte'), ('map[string]int32', '(map string int32)', 'ma<string:i32>'),
+                       ('%s' % ENUM_NAME, '(int64 %s)' % ENUM_NAME, 'Enum1'), ('string', 'string', 'str')]:
+        one(gt, mt, 'frugal:"1,default,%s"' % an)
+    # syntactically broken annotations
+    for gt, mt, an in [('[]int32', '(slice int32)', 'list<i32'), ('[]int32', '(slice int32)', 'list<i32>>'), ('[]int32', '(slice int32)', 'list i32>'),
+                       ('[]int32', '(slice int32)', 'lis<i32>'), ('[]int32', '(slice int32)', 'list<>'), ('[]int32', '(slice int32)', 'list<i32> x'),
+                       ('map[string]int32', '(map string int32)', 'map<string;i32>'), ('map[string]int32', '(map string int32)', 'map<string:>'),
+                       ('map[string]int32', '(map string int32)', 'map<string:i32'), ('map[string]int32', '(map string int32)', 'map<string i32>'),
+                       ('map[string]int32', '(map string int32)', 'map string:i32>'), ('int64', '(int64 -)', 'i64>>garbage'), ('int32', 'int32', 'i32 i32'),
+                       ('Leaf', '(struct %d Leaf)' % u.by_name['Leaf'].sid, 'pkg.'), ('Leaf', '(struct %d Leaf)' % u.by_name['Leaf'].sid, 'pkg.9'),
+                       ('Leaf', '(struct %d Leaf)' % u.by_name['Leaf'].sid, 'pkg Leaf'), ('[]int32', '(slice int32)', '<i32>')]:
+        one(gt, mt, 'frugal:"1,default,%s"' % an)
+    one('map[string]int32', '(map string int32)', 'frugal:"1,default,map<string,i32>"')
+    lsid = u.by_name['Leaf'].sid
+    # invalid map keys; non-struct pointers where only values are allowed
+    one('map[Leaf]int32', '(map (struct %d Leaf) int32)' % lsid, 'frugal:"1,default,map<Leaf:i32>"')
+    one('map[*int32]int32', '(map (ptr int32) int32)', 'frugal:"1,default,map<i32:i32>"')
+    one('map[*string]int32', '(map (ptr string) int32)', 'frugal:"1,default,map<string:i32>"')
+    one('[]*int32', '(slice (ptr int32))', 'frugal:"1,default,list<i32>"')
+    one('[]*string', '(slice (ptr string))', 'frugal:"1,default,set<string>"')
+    one('map[string]*int32', '(map string (ptr int32))', 'frugal:"1,default,map<string:i32>"')
+    one('map[string]*[]byte', '(map string (ptr (slice uint8)))', 'frugal:"1,default,map<string:binary>"')
+    one('*int32', '(ptr int32)', 'frugal:"1,default,i32"')
+    one('*int32', '(ptr int32)', 'frugal:"1,required,i32"')
+    one('*string', '(ptr string)', 'frugal:"1"')
+    # pointers to pointers or to containers
+    one('**Leaf', '(ptr (ptr (struct %d Leaf)))' % lsid, 'frugal:"1,optional,Leaf"')
+    one('**int32', '(ptr (ptr int32))', 'frugal:"1,optional,i32"')
+    one('*[]int32', '(ptr (slice int32))', 'frugal:"1,optional,list<i32>"')
+    one('*map[string]int32', '(ptr (map string int32))', 'frugal:"1,optional,map<string:i32>"')
+    one('[]**Leaf', '(slice (ptr (ptr (struct %d Leaf))))' % lsid, 'frugal:"1,optional,list<Leaf>"')
+    one('map[string]*[]int32', '(map string (ptr (slice int32)))', 'frugal:"1,default,map<string:list<i32>>"')
+    # ids
+    bad([Field(1, ('i32',)), Field(2, ('i32',), tag='frugal:"1,default,i32"', name='Dup')])
+    bad([Field(7, ('i32',), tag='frugal:"7,default,i32"'), Field(8, ('string',), tag='thrift:"n,7"', name='Dup')])
+    for idt in ['x1', '', '65536', '-1', '+1', '1.0', '0x10', '1_0', ' ', '99999999999999999999']:
+        one('int32', 'int32', 'frugal:"%s,default,i32"' % idt)
+    one('int32', 'int32', 'thrift:"onlyname"')
+    # requiredness, options
+    for rq in ['mandatory', 'Required', 'opt', '', 'i32']:
+        one('int32', 'int32', 'frugal:"1,%s,i32"' % rq)
+    for opts in ['zerocopy', 'nocopy,nocopy', 'NoCopy', '', 'nocopy,x']:
+        one('string', 'string', 'frugal:"1,default,string,%s"' % opts)
+    one('int32', 'int32', 'frugal:"1,default,i32,nocopy"')
+    one('[]int32', '(slice int32)', 'frugal:"1,default,list<i32>,nocopy"')
+    one('*Leaf', '(ptr (struct %d Leaf))' % lsid, 'frugal:"1,optional,Leaf,nocopy"')
+    # valid definitions that reach an invalid one (registration prefetches nested structs)
+    b = u.by_name['Bad1']
+    for gt, mt, an in [('*Bad1', '(ptr (struct %d Bad1))' % b.sid, 'Bad1'), ('[]*Bad1', '(slice (ptr (struct %d Bad1)))' % b.sid, 'list<Bad1>'),
+                       ('map[string]*Bad1', '(map string (ptr (struct %d Bad1)))' % b.sid, 'map<string:Bad1>'),
+                       ('map[*Bad1]int32', '(map (ptr (struct %d Bad1)) int32)' % b.sid, 'map<Bad1:i32>'), ('Bad1', '(struct %d Bad1)' % b.sid, 'Bad1')]:
+        bad([Field(1, None, go_text=gt, model_text=mt, tag='frugal:"1,optional,%s"' % an), Field(2, ('i32',))], group='invalid-nested')
 
 
 def rand_type(rng, u, names, depth, pos):
